@@ -189,7 +189,7 @@ def check(ctx):
                                                                       Call("Clone::clone", Through(Param(2)), nargs=1), lambda a: rng_passthrough(a, 3), nargs=3))
         ctx.check(ok2, "R14.4", "RepeatWith/closure-applies-f-to-clone-of-input", short(cps[0].ret, 6) if cps else "-", f.at())
         # result type of the collect is Result<Vec<_>,_>: early exit on first Err (std contract)
-        term = F.fns[f.id].blocks[b["coll"][4][1]]["term"]
+        term = F.fns[b["coll"][4][-2]].blocks[b["coll"][4][-1]]["term"]
         tys = [a.get("s", "") for a in term.get("targs", [])]
         ctx.check(any(s.startswith("std::result::Result<std::vec::Vec<") for s in tys), "R14.4", "RepeatWith/collect-into-Result<Vec>", "; ".join(tys)[:200], f.at())
     ctx.check(len(erp) == 1 and match(erp[0].ret, Call("FromResidual::from_residual", TryErr(ANY))), "R14.4", "RepeatWith/error-propagated", short(erp[0].ret, 6) if erp else "-", f.at())
